@@ -48,6 +48,17 @@ def assigned_names(stmts):
     return out
 
 
+def grown_names(stmts):
+    """locals that the statements grow in place (x.append / extend / add / update ...)"""
+    out = set()
+    for s in stmts:
+        for n in ast.walk(s):
+            if isinstance(n, ast.Call) and isinstance(n.func, ast.Attribute) and n.func.attr in ('append', 'extend', 'update', 'add', 'pop', 'clear', 'insert', 'remove'):
+                if isinstance(n.func.value, ast.Name):
+                    out.add(n.func.value.id)
+    return out
+
+
 def havoc_like(v, name):
     k = v.kind
     if k == 'int':
@@ -199,9 +210,22 @@ def _havoc(interp, fr, node, spec, tag):
         g.havoc(tag, only=comps)
         if getattr(ctx, 'on_havoc', None):
             ctx.on_havoc(gname, tag, comps)   # fresh ghost view + the invariant of a graph whose typestate is `valid`
+    grown = grown_names(node.body)
     for n in sorted(assigned_names(node.body) - assigned_names([node.target])):
         if n in fr.env:
-            fr.env[n] = havoc_like(fr.env[n], n + tag)
+            v = fr.env[n]
+            if n in grown and v.kind == 'list':
+                # a local list that the body grows: only a list of ints that is empty at loop entry is modelled (as a multiset of ints)
+                if v.esc or v.items:
+                    raise Undecided('local list %s grown inside a cut loop' % n)
+                from .seqs import VIntBag
+                fr.env[n] = VIntBag(fresh(n + tag, z3.ArraySort(Int, Int)))
+                continue
+            if n in grown and v.kind == 'intbag':
+                from .seqs import VIntBag
+                fr.env[n] = VIntBag(fresh(n + tag, z3.ArraySort(Int, Int)))
+                continue
+            fr.env[n] = havoc_like(v, n + tag)
 
 
 def _check_frame(interp, spec, before, label):
